@@ -121,12 +121,13 @@ impl Prop for C11 {
         if let Some((input, _)) = build(k, &t, &mut rng, false, None) { out.push(Case { id: cell.clone(), cell, input }); }
       }
       // many blocks: 5-8 block rows and / or 5-8 blocks in a row (the n-ary kernels; 1-4 entries have kernels of their own)
-      let nm = if tier == Tier::Quick { 14 } else { 150 };
+      let nm = if tier == Tier::Quick { 20 } else { 200 };
       for i in 0..nm {
         let mut rng = Rng::keyed(seed, &format!("many{}{}", k, i));
-        let nrows = if i % 3 == 1 { 1 + rng.below(2) as usize } else { 5 + rng.below(4) as usize };
+        // i%4: 0 = one block per row (pure n-ary vertical), 1 = a single row of many blocks (pure n-ary horizontal), 2/3 = mixed
+        let nrows = if i % 4 == 1 { 1 } else if i % 4 == 3 { 1 + rng.below(3) as usize } else { 5 + rng.below(4) as usize };
         let t: Tiling = {
-          let per_row: Vec<usize> = (0..nrows).map(|_| if i % 3 == 0 { 1 + rng.below(2) as usize } else { 5 + rng.below(4) as usize }).collect();
+          let per_row: Vec<usize> = (0..nrows).map(|_| if i % 4 == 0 { 1 } else if i % 4 == 2 { 1 + rng.below(3) as usize } else { 5 + rng.below(4) as usize }).collect();
           let cols = per_row.iter().max().unwrap() + rng.below(4) as usize;
           per_row.iter().map(|n| { let mut ws = vec![1usize; *n]; for _ in 0..(cols - n) { let j = rng.below(*n as u64) as usize; ws[j] += 1; } (1 + rng.below(3) as usize, ws) }).collect()
         };
